@@ -271,6 +271,19 @@ func cmdCheck(argv []string) int {
 	if tier == "thorough" {
 		runs = spec.Thorough
 	}
+	{
+		names := map[string]bool{}
+		var list []string
+		for _, r := range runs {
+			if !names[r.Harness] {
+				names[r.Harness] = true
+				list = append(list, r.Harness)
+			}
+		}
+		if out, err := exec.Command(replayBin, "-has", strings.Join(list, ",")).CombinedOutput(); err != nil {
+			return broken("native replay registry incomplete: %s", strings.TrimSpace(string(out)))
+		}
+	}
 	total := &RunStats{Outcomes: map[string]int{}, Covers: map[string]int{}, Unsupported: map[string]int{}}
 	var perRun []map[string]any
 	var allViol []*Violation
